@@ -122,3 +122,72 @@ def classref(ctx, clsqual, fn):
     fn[name] = ref
     fn['__globals__'][name] = ref
     return ref
+
+
+def all_bases(ctx, clsqual):
+    """names of the class and of all its repository base classes"""
+    c = ctx.prog.cls(clsqual)
+    out = {c.name}
+    for b in c.bases:
+        for q, ci in ctx.prog.classes.items():
+            if ci.name == b.split('.')[-1] and ci is not c:
+                out |= all_bases(ctx, q)
+        out.add(b.split('.')[-1])
+    return out
+
+
+def deep_copy(v, memo=None):
+    """copy.deepcopy for the values of the interpreter: records, abstract objects with copy(), containers"""
+    memo = {} if memo is None else memo
+    if id(v) in memo:
+        return memo[id(v)]
+    if isinstance(v, orders.Obj):
+        o = orders.Obj({}, v.methods, v.funcs, isa=v.isa)
+        o.clsname = v.clsname
+        memo[id(v)] = o
+        o.fields = {k: deep_copy(x, memo) for k, x in v.fields.items()}
+        return o
+    if isinstance(v, list):
+        out = []
+        memo[id(v)] = out
+        out.extend(deep_copy(x, memo) for x in v)
+        return out
+    if isinstance(v, dict):
+        out = {}
+        memo[id(v)] = out
+        for k, x in v.items():
+            out[k] = deep_copy(x, memo)
+        return out
+    if isinstance(v, tuple):
+        return tuple(deep_copy(x, memo) for x in v)
+    if isinstance(v, set):
+        return set(v)
+    if isinstance(v, orders.PyStub) and hasattr(v, 'copy'):
+        c = v.copy()
+        memo[id(v)] = c
+        return c
+    return v
+
+
+def operator_table(ctx, fn, opsmod='tracklib.core.operators'):
+    """the Operator namespace: every `NAME = Cls()` of the Operator class becomes a record of that repository class; the two name
+    tables become dicts of those records"""
+    ref = orders.PyStub()
+    c = ctx.prog.cls(opsmod + '.Operator')
+    for st in c.node.body:
+        if isinstance(st, ast.Assign) and len(st.targets) == 1 and isinstance(st.targets[0], ast.Name):
+            nm = st.targets[0].id
+            v = st.value
+            if isinstance(v, ast.Call) and isinstance(v.func, ast.Name) and not v.args and (opsmod + '.' + v.func.id) in ctx.prog.classes:
+                q = opsmod + '.' + v.func.id
+                o = instance(ctx, q, {}, fn, isa=all_bases(ctx, q))
+                setattr(ref, nm, o)
+            elif isinstance(v, ast.Dict):
+                d = {}
+                for k_, v_ in zip(v.keys, v.values):
+                    if isinstance(k_, ast.Constant) and isinstance(v_, ast.Name) and hasattr(ref, v_.id):
+                        d[k_.value] = getattr(ref, v_.id)
+                setattr(ref, nm, d)
+    fn['Operator'] = ref
+    fn['__globals__']['Operator'] = ref
+    return ref
